@@ -91,9 +91,29 @@ def gen_reuse(rng, idx):
                  "classes": [], "cfg": cfg, "reuse": True})
 
 
+def gen_dealloc(rng, idx):
+    """build a tree of two or three levels, release it as DROP TABLE + VACUUM do: every page must be on the free list"""
+    page = rng.choice([4096, 8192])
+    cfg = "%d,2000,%d,%d" % (page, rng.choice([3, 4]), rng.choice([1, 2]))
+    n = rng.choice([40, 300, 1500])
+    keys = sorted(rng.sample(range(0, 10 ** 6), n))
+    rank = {k: i for i, k in enumerate(keys)}
+    order = list(keys); rng.shuffle(order)
+    rust, coq, expect = [], [], []
+    for k in order:
+        l, s = rng.choice([0, 5, 20, 60, 120, 170]), rng.randrange(256)
+        rust.append("i:U:%d:%d:%d" % (k, l, s)); coq.append("TIns %d %d %d" % (rank[k], l, c10.payload_sum(l, s))); expect.append("iok")
+    rust += ["D", "X", "Z"]
+    line = "tree %s biguint %s" % (cfg, " ".join(rust))
+    return Case(line, "[%s]" % "; ".join(coq), "dealloc",
+                {"kind": "biguint", "keys": keys, "rank": {c10.key_tok("biguint", k): i for k, i in rank.items()}, "expect": expect,
+                 "dumps": [(len(rust) - 3, None)], "classes": [], "cfg": cfg, "dealloc": True})
+
+
 def gen_cases(rng, tier):
     out = [c10.gen_case(rng, tier, i) for i in range(40 if tier == "quick" else 600)]
     out += [gen_reuse(rng, i) for i in range(6 if tier == "quick" else 60)]
+    out += [gen_dealloc(rng, i) for i in range(8 if tier == "quick" else 80)]
     return out
 
 
@@ -107,6 +127,22 @@ def oracle(case, il):
         return "%d answers for %d operations: %s" % (len(segs), len(ops), segs[-1][:100] if segs else "-")
     totals = []
     prev = None
+    if case.meta.get("dealloc"):
+        # ... D X Z : after releasing the tree every page of the file (but page zero) is on the free list, once
+        d = c10.parse_dump(segs[-3])
+        z = segs[-1]
+        if segs[-2] != "xok" or not z.startswith("free[") or z == "free[!]":
+            return ("releasing the tree failed: %s %s" % (segs[-2], z[:80]), len(segs) - 2)
+        f = z[5:-1].split(":")
+        total, lst = int(f[0]), [int(x) for x in f[3].split(">")] if f[3] else []
+        if sorted(lst) != list(range(1, total)):
+            missing = sorted(set(range(1, total)) - set(lst))
+            return ("after releasing the tree %d of %d pages are not on the free list (lost): %s%s" % (len(missing), total - 1, missing[:8],
+                    "" if len(set(lst)) == len(lst) else "; some pages are listed twice"), len(segs) - 1)
+        if d is None:
+            return ("tree cannot be dumped before its release: %s" % segs[-3][:100], len(segs) - 3)
+        e = ownership_errors(d)
+        return (e, len(segs) - 3) if e else None
     for i, (op, seg) in enumerate(zip(ops, segs)):
         if op != "D":
             continue
@@ -140,6 +176,11 @@ def post(case, raw):
         return terms
     o = lambda x: "None" if x is None else "(Some %d)" % x
     for op, seg in zip(ops, segs):
+        if op == "Z" and seg.startswith("free[") and seg != "free[!]":
+            f = seg[5:-1].split(":")
+            lst = [int(x) for x in f[3].split(">")] if f[3] else []
+            terms.append("(%s, [], [], [%s], %s, %s)" % (f[0], "; ".join(map(str, lst)), o(None if f[1] == "-" else int(f[1])), o(None if f[2] == "-" else int(f[2]))))
+            continue
         if op != "D":
             continue
         d = c10.parse_dump(seg)
